@@ -7,7 +7,7 @@ package main
 // Probes (property predicates evaluated on the real code): accepted_distinct,
 // accepted_prime_ntt, accepted_bits61, accepted_then_ntt_roundtrip, rejected_no_panic,
 // params_roundtrip, genmoduli_spec, genmoduli_checks_lognthroot, bgv_qmul_disjoint,
-// bgv_t_coprime_qp, exported_instantiable, exported_within_table, json_literal_terminates.
+// accepted_then_bgv_arithmetic, exported_instantiable, exported_within_table, json_literal_terminates.
 //
 // The `exported` lines end in known=1: the model answers known=1 only if the dumped set is
 // literally the one compiled into lean/Lattigo/Model/Params.lean (`exportedSets`, the list the
@@ -68,7 +68,7 @@ func c19IsPrime(c *Ctx) {
 		emit(n)
 	}
 	for b := 2; b <= 64; b++ {
-		for j := 0; j < c.Scale(2, 12); j++ {
+		for j := 0; j < c.Scale(2, 60); j++ {
 			var n uint64
 			if b == 64 {
 				n = c.rng.U64() | 1<<63
@@ -111,7 +111,7 @@ func c19Overlap(c *Ctx) {
 			emit("u", s, uint64(int64(up)+d))
 			emit("d", s, uint64(int64(dn)+d))
 		}
-		for j := 0; j < c.Scale(4, 40); j++ {
+		for j := 0; j < c.Scale(4, 200); j++ {
 			// within a relative 2^-40 .. 2^-4 of the threshold
 			w := uint(c.rng.Intn(40) + 4)
 			span := up >> w
@@ -170,7 +170,7 @@ func c19EmitGen(c *Ctx, dir int, bitsz, root uint64, k int, d time.Duration) {
 }
 
 func c19Gen(c *Ctx) {
-	per := c.Scale(2, 24)
+	per := c.Scale(2, 120)
 	for b := uint64(0); b <= 65; b++ {
 		for dir := 0; dir < 3; dir++ {
 			for j := 0; j < per; j++ {
@@ -287,7 +287,7 @@ func c19GenModuli(c *Ctx) {
 	c19EmitGenModuli(c, -3, nil, nil, c19Slow)
 	c19EmitGenModuli(c, -3, []int{30}, nil, c19Slow) // panics: 1<<-3
 	c19EmitGenModuli(c, -1, []int{0}, nil, c19Slow)  // size error comes first
-	for i := 0; i < c.Scale(40, 600); i++ {
+	for i := 0; i < c.Scale(40, 3000); i++ {
 		L := 5 + c.rng.Intn(13)
 		nq, np := 1+c.rng.Intn(8), c.rng.Intn(4)
 		lq, lp := make([]int, nq), make([]int, np)
@@ -496,7 +496,7 @@ func c19RlweNew(c *Ctx) {
 	}
 
 	// (c) structured valid literals
-	for i := 0; i < c.Scale(40, 400); i++ {
+	for i := 0; i < c.Scale(40, 2000); i++ {
 		l := base(4 + c.rng.Intn(7))
 		l.RT = c.rng.Intn(2)
 		avoid := map[uint64]bool{}
@@ -639,7 +639,7 @@ func c19RlweNew(c *Ctx) {
 	}
 
 	// (i) several sizes with multiplicities, custom root orders
-	for i := 0; i < c.Scale(30, 300); i++ {
+	for i := 0; i < c.Scale(30, 2000); i++ {
 		l := base(4 + c.rng.Intn(8))
 		l.RT = c.rng.Intn(2)
 		if c.rng.Intn(2) == 0 {
@@ -759,14 +759,38 @@ func c19Schemes(c *Ctx) {
 			}
 		}
 		c.Probe("bgv_qmul_disjoint", args, "C19-bgv-qmul-shares-prime-with-q", d)
-		d = ""
-		for _, y := range append(params.Q(), params.P()...) {
+		// t | P is accepted (only Q is searched for t); measured to be harmless for Mul/Relinearize/
+		// Rotate (see accepted_then_bgv_arithmetic below), so it is counted, not reported.
+		for _, y := range params.P() {
 			if y == t {
-				d = fmt.Sprintf("t=%d divides QP (only Q is checked)", t)
+				c.Count("bgv:accepted-with-t-in-P")
 			}
 		}
-		c.Probe("bgv_t_coprime_qp", args, "C19-bgv-t-divides-p", d)
 		c.Probe("params_roundtrip", "bgv "+args, "C19-params-roundtrip", c19BgvRoundTrip(params))
+	}
+	// after acceptance: homomorphic arithmetic against the plaintext computation (N=64)
+	{
+		n := uint64(2) << 6
+		a := c19PrimeWithBits(c, 55, n, nil)
+		b := c19PrimeWithBits(c, 54, n, map[uint64]bool{a: true})
+		p := c19PrimeWithBits(c, 56, n, map[uint64]bool{a: true, b: true})
+		q62a := c19PrimeWithBits(c, 62, n, nil)
+		q62b := c19PrimeWithBits(c, 62, n, map[uint64]bool{q62a: true})
+		for _, x := range []struct {
+			name, key string
+			lit       bgv.ParametersLiteral
+			inv       bool
+		}{
+			{"control", "C19-bgv-arithmetic", bgv.ParametersLiteral{LogN: 6, Q: []uint64{a, b}, P: []uint64{p}, PlaintextModulus: 65537}, false},
+			{"control-scale-invariant", "C19-bgv-arithmetic", bgv.ParametersLiteral{LogN: 6, Q: []uint64{a, b}, P: []uint64{p}, PlaintextModulus: 65537}, true},
+			{"t-in-P", "C19-bgv-t-divides-p", bgv.ParametersLiteral{LogN: 6, Q: []uint64{a, b}, P: []uint64{65537}, PlaintextModulus: 65537}, false},
+			{"t-in-P-scale-invariant", "C19-bgv-t-divides-p", bgv.ParametersLiteral{LogN: 6, Q: []uint64{a, b}, P: []uint64{65537}, PlaintextModulus: 65537}, true},
+			{"Q-is-the-61-bit-downstream-primes-scale-invariant", "C19-bgv-qmul-shares-prime-with-q", bgv.ParametersLiteral{LogN: 6, Q: d61, P: []uint64{p}, PlaintextModulus: 65537}, true},
+			{"Q-and-P-share-a-prime", "C19-qp-shared-prime", bgv.ParametersLiteral{LogN: 6, Q: []uint64{a, b}, P: []uint64{b}, PlaintextModulus: 65537}, false},
+			{"62-bit-Q", "C19-modulus-over-61-bits", bgv.ParametersLiteral{LogN: 6, Q: []uint64{q62a, q62b}, P: []uint64{p}, PlaintextModulus: 65537}, false},
+		} {
+			c.Probe("accepted_then_bgv_arithmetic", fmt.Sprintf("case=%s logN=6 Q=%s P=%s t=%d", x.name, Vec(x.lit.Q), Vec(x.lit.P), x.lit.PlaintextModulus), x.key, c19BgvArithmetic(x.lit, x.inv))
+		}
 	}
 	for _, r := range rings {
 		n2 := uint64(2) << uint(r.logN)
@@ -821,7 +845,7 @@ func c19SortedU(v []uint64) []uint64 {
 }
 
 func c19Derived(c *Ctx) {
-	for i := 0; i < c.Scale(24, 200); i++ {
+	for i := 0; i < c.Scale(24, 600); i++ {
 		logN := 4 + c.rng.Intn(9)
 		rt := c.rng.Intn(2)
 		lds := []int{20, 30, 45, 64, 65, 90, 128}[c.rng.Intn(7)]
